@@ -733,7 +733,7 @@ Lemma InvE_compact_do s :
           next_edge := next_edge s; free_edges := free_edges s; tidx := tidx s;
           interned := interned s; bout := []; bin := [];
           fout := fout s ++ bout s; fin := fin s ++ bin s;
-          fdead := fdead s; unsorted := false; tstale := tstale s |}.
+          fdead := fdead s; unsorted := []; tstale := tstale s |}.
 Proof.
   intros I. constructor; cbn; try apply I.
   - apply AdjInv_compact; [apply I|]. intros e L. now apply (e_range _ I).
@@ -748,7 +748,7 @@ Qed.
 Lemma InvE_compact s : InvE s -> InvE (compact s).
 Proof.
   intros I. unfold compact. pose proof (InvE_compact_do s I) as C.
-  pose proof (InvE_with_props s (eprops s) (ecols s) false I (fun e L => match e_dead _ I e L with conj _ H => H end)) as X.
+  pose proof (InvE_with_props s (eprops s) (ecols s) [] I (fun e L => match e_dead _ I e L with conj _ H => H end)) as X.
   destruct (bout s) eqn:B1; destruct (bin s) eqn:B2; auto.
 Qed.
 
